@@ -241,7 +241,8 @@ fn conv_service(e: ServiceEvent) -> EvKind {
                 let mut bad = vec![];
                 for p in r.txt_properties.iter() {
                     let first = r.txt_properties.iter().find(|q| q.key().eq_ignore_ascii_case(p.key())).map(|q| q.val().map(|v| v.to_vec()));
-                    for variant in [p.key().to_uppercase(), p.key().to_lowercase(), p.key().to_string()] {
+                    // (ASCII case variants: the statement is about ASCII keys; keys from raw TXT bytes may hold anything)
+                    for variant in [p.key().to_ascii_uppercase(), p.key().to_ascii_lowercase(), p.key().to_string()] {
                         let got = r.get_property_val(&variant).map(|v| v.map(|x| x.to_vec()));
                         if got != first {
                             bad.push(variant);
